@@ -478,7 +478,7 @@ func newWatchedValidator(domains []string, file string) *watchedValidator {
 
 // waitFor polls until the validator reflects the rewritten file (fsnotify reload is asynchronous)
 func (w *watchedValidator) waitFor(sentinel string, old string) bool {
-	deadline := time.Now().Add(10 * time.Second)
+	deadline := time.Now().Add(20 * time.Second)
 	for time.Now().Before(deadline) {
 		if w.validate(sentinel) && (old == "" || !w.validate(old)) {
 			return true
@@ -545,6 +545,8 @@ func azValidatorReload(c *suiteCtx) {
 				time.Sleep(150 * time.Millisecond)
 			} else if !w.waitFor(sentinel, old) {
 				c.violation("HARNESS", "authenticated-emails file reload not observed", map[string]interface{}{"file": file})
+				c.violation("C08", "20 s after the authenticated-emails file was replaced (written aside, renamed over the old file) the validator still answers from the old contents: a removed address stays authorised, an added one is refused",
+					map[string]interface{}{"removed_address_still_valid": w.validate(old), "added_address_valid": w.validate(sentinel), "update": "atomic rename over the watched file"})
 				close(w.done)
 				continue
 			}
@@ -921,6 +923,8 @@ func azE2E(c *suiteCtx) {
 				set1 := writeEmailsFile(nil, file, entries, "sentinel-1@probe.test")
 				if !w.waitFor("sentinel-1@probe.test", "sentinel-0@probe.test") {
 					c.violation("HARNESS", "reload of the authenticated-emails file not observed", nil)
+					c.violation("C08", "20 s after the authenticated-emails file was replaced (atomic rename) the proxy still authorises from the old contents",
+						map[string]interface{}{"removed_address_still_valid": w.validate("sentinel-0@probe.test"), "added_address_valid": w.validate("sentinel-1@probe.test")})
 				} else {
 					ru1 := ru0
 					ru1.file = entries
